@@ -12,6 +12,18 @@ Engine E2.  Three parts:
         disabled-path loop over the picked tasks on an equal fresh state: returned lines, store content, version,
         every log file byte for byte, snapshot directory listing.
  (b)    the real stage pipeline under the driver on a real world: must not raise, lines equal the sequential loop.
+
+Further dimensions of (a):
+ * the batch context: turn id 6 / 1 / 0 (the first turn of a run - a falsy id), slice index 0 / 2, optional context fields
+   (now_ms, slice_idx, seed) present, falsy or absent; the compute stand-in echoes every context field it can see into its
+   result line and stamps the turn id into every record;
+ * the state container: a plain dict (reads go through the live dict's bound `get`) or an attribute-style object (the layout
+   the read-only snapshot facade is written for: every mapping attribute reaches the compute phase through the snapshot
+   view); the state carries a static registry (one entry per graph, nested mappings/lists, int keys, falsy values) whose
+   insertion order runs over the permutations of the graph ids; the compute stand-in OBSERVES what it reads (keys in
+   iteration order, lengths, nested values -> one log record), takes the first owned graph in registry order as its focus
+   (result line) and proposes one delta per owned graph in registry order.  The sequential loop
+   reads the live state, the batch reads the snapshot view: both must observe the same thing.
 """
 from __future__ import annotations
 
@@ -20,6 +32,7 @@ import json
 import os
 import shutil
 import types
+from collections.abc import Mapping, Sequence
 
 from mc.runner import Run, Stats, HarnessError
 from mc import world as W
@@ -52,6 +65,61 @@ SHAPES = {
 # CI normalisation returns unchanged: the sequential loop serialises at call time, so the capture must snapshot too
 SHAPES["reuse"] = [("gel.jsonl", "reuse"), ("gel.jsonl", "reuse"), ("custom.jsonl", "reuse"), ("t1.jsonl", "tiny")]
 SIZES = {"tiny": 1, "mid": 200, "big": 70 * 1024}
+# "walk": the record carries the stand-in's observation of the state it reads (see observe())
+SHAPES["walk"] = [("t1.jsonl", "walk"), ("t2.jsonl", "tiny"), ("custom.jsonl", "walk")]
+
+# batch context variants: the fields a caller's ctx may carry (the driver clones cfg, config, now, now_ms, seed, slice_idx,
+# slice_budgets when present).  Turn 0 is the first turn of a run (apply: "Define turn 0 as a snapshot turn").
+CTXS = {
+    "t6": {"turn_id": 6, "slice_idx": 0, "now_ms": W.NOW_MS},      # the default of every case without a "ctx" key
+    "t0": {"turn_id": 0, "slice_idx": 0, "now_ms": W.NOW_MS},
+    "t1s2": {"turn_id": 1, "slice_idx": 2, "now_ms": 0, "seed": 0},
+    "bare0": {"turn_id": 0},                                          # optional fields absent rather than zero
+    "bare6": {"turn_id": 6, "seed": 11},
+}
+CTX_ECHO = ("turn_id", "slice_idx", "now_ms", "seed")
+
+# insertion orders of the static registry (index into the permutations of GRAPHS; 0 = sorted = control)
+REG_ORDERS = [list(p) for p in itertools.permutations(GRAPHS)]
+
+
+def registry(order_idx):
+    """graph registry in the given insertion order; inner layout deliberately NOT in sorted key order, with int keys
+    (str-order != int-order != insertion order), falsy values and empty containers"""
+    reg = {}
+    for pos, g in enumerate(REG_ORDERS[order_idx]):
+        reg[g] = {"tags": ["b-" + g, "a-" + g], "label": "graph " + g, "zero": 0, "w": {2: "x", 10: "y", 1: "z"},
+                  "none": None, "empty": {}, "el": [], "pos": pos, "flag": False, "nest": {"z": [1, {"k": ()}], "a": ""}}
+    return reg
+
+
+def observe(x):
+    """What a reader can see of a value without relying on its concrete container type: mappings by iteration order, length
+    and item lookup; sequences by length and items; scalars by repr.  JSON-able."""
+    if x is None or isinstance(x, (bool, int, float, str, bytes)):
+        return repr(x)
+    if isinstance(x, Mapping):
+        return ["map", len(x), [[repr(k), observe(x[k])] for k in x]]
+    if isinstance(x, (set, frozenset)):
+        return ["set", sorted(repr(v) for v in x)]
+    if isinstance(x, Sequence):
+        return ["seq", len(x), [observe(v) for v in x]]
+    return "obj:" + type(x).__name__
+
+
+def sget(state, key, default=None):
+    """read one top-level entry of a dict-style or attribute-style state (live or snapshot view)"""
+    g = getattr(state, "get", None)
+    if callable(g):
+        return g(key, default)
+    return getattr(state, key, default)
+
+
+class AttrState:
+    """attribute-style engine state (state.store, state.agents, ...)"""
+
+    def __init__(self, d):
+        self.__dict__.update(d)
 
 
 class WStore:
@@ -83,25 +151,44 @@ def graph_maps(graph_sets, shape="gba"):
     raise HarnessError("unknown state shape %r" % (shape,))
 
 
-def fresh_state(graph_sets, shape="gba"):
+def fresh_state(graph_sets, shape="gba", container="dict", reg_order=None):
     st = {"store": WStore(), "version_etag": "3", "_boot_loaded": True}
     st.update(graph_maps(graph_sets, shape))
-    return st
+    if reg_order is not None:
+        st["graph_meta"] = registry(reg_order)
+    if container == "dict":
+        return st
+    if container == "attr":
+        return AttrState(st)
+    raise HarnessError("unknown state container %r" % (container,))
 
 
-def make_standin(shape, computed):
-    """A run_turn that follows the dry-run contract; deterministic in (agent, text, state-of-own-target)."""
+def make_standin(shape, computed, graph_sets=None):
+    """A run_turn that follows the dry-run contract; deterministic in (agent, text, the context fields it is handed, the static
+    registry / agent maps it reads from the state, state-of-own-target)."""
+    graph_sets = graph_sets or {}
 
     def _run_turn(self, ctx, state, text):
         agent = str(getattr(ctx, "agent_id", "?"))
         turn = getattr(ctx, "turn_id", 0)
         dry = bool(getattr(ctx, "_dry_run_until_t4", False))
         computed.append((agent, dry))
-        store = state.get("store")
+        store = sget(state, "store")
         own = ("node", "own-" + agent, "weight")
         cur = store.w.get(own, 0.0) if store is not None else 0.0
         deltas = [ProposedDelta("node", "own-" + agent, "weight", 0.25 if cur == 0.0 else 0.5, op_idx=None, idx=0),
                   ProposedDelta("node", "shared", "weight", 0.125, op_idx=None, idx=1)]
+        # --- what the compute phase reads from the state (static over the batch: registry and agent maps)
+        reg = sget(state, "graph_meta")
+        seen = None
+        focus = ""
+        if reg is not None:
+            mine = set(graph_sets.get(agent, []))
+            order = [g for g in reg if g in mine]            # registry iteration order
+            focus = "|focus=%s" % (order[0] if order else "-")
+            for j, g in enumerate(order):
+                deltas.append(ProposedDelta("node", "reg-%s" % g, "weight", 0.0625, op_idx=None, idx=2 + j))
+            seen = observe({"graph_meta": reg, "agents": sget(state, "agents"), "graphs_by_agent": sget(state, "graphs_by_agent")})
         progress = {"turn": turn, "agent": agent, "step": 0, "note": "reused"}
         for i, (stream, size) in enumerate(shape):
             if size == "reuse":
@@ -109,8 +196,12 @@ def make_standin(shape, computed):
                 append_jsonl(stream, progress)
                 progress["note"] = "after-%d" % i
                 continue
+            if size == "walk":
+                append_jsonl(stream, {"turn": turn, "agent": agent, "i": i, "text": text, "seen": seen, "ms": 5.0})
+                continue
             append_jsonl(stream, {"turn": turn, "agent": agent, "i": i, "text": text, "pad": "p" * SIZES[size], "ms": 5.0})
-        utter = "u:%s:%s" % (agent, text)
+        echo = ",".join("%s=%r" % (k, getattr(ctx, k, "<absent>")) for k in CTX_ECHO)
+        utter = "u:%s:%s@%s%s" % (agent, text, echo, focus)
         t4 = types.SimpleNamespace(approved_deltas=deltas, rejected_ops=[], reasons=[], metrics={"counts": {"approved": len(deltas)}})
         if dry:
             ctx._dryrun_t4 = t4
@@ -147,7 +238,7 @@ def drive(case, scratch, par_on, tasks=None, limit=None, measure=None):
     old_stage = iol.LogStager.stage
     out = {"error": None}
     try:
-        orch_core.Orchestrator.run_turn = make_standin(SHAPES[case["shape"]], computed)
+        orch_core.Orchestrator.run_turn = make_standin(SHAPES[case["shape"]], computed, case["graphs"])
         real_enable = iol.enable_staging
         if limit is not None:
             orch.enable_staging = lambda: real_enable(byte_limit=limit)
@@ -160,8 +251,10 @@ def drive(case, scratch, par_on, tasks=None, limit=None, measure=None):
                 measure.append(self._bytes - b0)
             iol.LogStager.stage = _stage
         cfg = _cfg(par_on, case["workers"], ex.snap_dir, case.get("cadence", 1))
-        ctx = types.SimpleNamespace(cfg=cfg, config=cfg, turn_id=6, agent_id="batch", now_ms=W.NOW_MS, slice_idx=0)
-        state = fresh_state(case["graphs"], case.get("state_shape", "gba"))
+        if case.get("ctx", "t6") not in CTXS:
+            raise HarnessError("unknown ctx variant %r" % (case.get("ctx"),))
+        ctx = types.SimpleNamespace(cfg=cfg, config=cfg, agent_id="batch", **CTXS[case.get("ctx", "t6")])
+        state = fresh_state(case["graphs"], case.get("state_shape", "gba"), case.get("container", "dict"), case.get("registry"))
         tl = tasks if tasks is not None else [(a, "t-" + a) for a in case["agents"]]
         try:
             res = orch._run_agents_parallel_batch(ctx, state, list(tl))
@@ -171,8 +264,8 @@ def drive(case, scratch, par_on, tasks=None, limit=None, measure=None):
             out["lines"] = None
         out["logs"] = ex.logs()
         out["snaps"] = sorted(ex.snaps())
-        out["w"] = sorted((list(k), v) for k, v in state["store"].w.items())
-        out["version"] = state.get("version_etag")
+        out["w"] = sorted((list(k), v) for k, v in sget(state, "store").w.items())
+        out["version"] = sget(state, "version_etag")
         out["computed"] = list(computed)
         return out
     finally:
@@ -212,6 +305,9 @@ def check_case(case, scratch, limits=None):
     base = drive(case, scratch, par_on=True, limit=32 * 1024 * 1024, measure=sizes)
     nruns = 1
     tag = "shape=%s workers=%d graphs=%s" % (case["shape"], case["workers"], json.dumps(case["graphs"], sort_keys=True))
+    for k in ("ctx", "container", "state_shape", "registry"):
+        if case.get(k) is not None:
+            tag += " %s=%s" % (k, REG_ORDERS[case[k]] if k == "registry" else case[k])
     if base["error"]:
         return [("standin:driver-raises:limit=32MiB", "driver raised %s [%s]" % (base["error"], tag))], nruns, []
     picked = [a for a, dry in base["computed"] if dry]
@@ -233,7 +329,9 @@ def check_case(case, scratch, limits=None):
     seq = drive(case, scratch, par_on=False, tasks=[(a, "t-" + a) for a in picked])
     nruns += 1
     if seq["error"]:
-        raise HarnessError("sequential baseline raised: %s" % seq["error"])
+        # the stand-in itself never raises and the batch over the same tasks returned: the two paths differ
+        return out + [("standin:sequential-loop-raises", "the driver's disabled-path loop raised %s where the batch returned %r [%s]" % (
+            seq["error"], base["lines"], tag))], nruns, []
 
     def compare(run, label):
         for key, sig in (("lines", "results"), ("w", "store"), ("version", "version")):
@@ -271,6 +369,10 @@ def check_case(case, scratch, limits=None):
         lim_set.update({acc - 1, acc, acc + 1})
         lim_set.update({s - 1, s, s + 1})
     lim_set = sorted(x for x in lim_set if x >= 1)
+    if case.get("lim") == "ends":
+        # context / state-view legs of the quick tier: the view and the ctx clone are taken before anything is staged, so only
+        # the extreme back-pressure regimes are run (flush before every record / one flush before the last record / never)
+        lim_set = sorted({1, max(1, sum(sizes) - 1)})
     if limits is not None:
         lim_set = [x for x in lim_set if x in limits] or lim_set[:1]
     biggest = max(sizes) if sizes else 0
@@ -386,7 +488,7 @@ def real_pipeline_case(scratch, world="W3"):
 
 def cases(thorough):
     out = []
-    shapes = list(SHAPES) if thorough else ["std", "multi", "none", "big", "reuse"]
+    shapes = [s for s in SHAPES if s != "walk"] if thorough else ["std", "multi", "none", "big", "reuse"]   # "walk": see below
     for n in range(1, 4):
         for idxs in itertools.product(range(len(SUBSETS)), repeat=n):
             if not thorough and n >= 2 and any(i > 4 for i in idxs):
@@ -416,6 +518,40 @@ def cases(thorough):
                 d = dict(c)
                 d["state_shape"] = shp
                 extra.append(d)
+    # --- batch context variants (turn id 0 / 1, slice index, optional fields absent / falsy) x every overlap pattern
+    for c in out:
+        if len(c["agents"]) > 2 or c["shape"] not in (("std", "multi", "none") if thorough else ("std",)):
+            continue
+        for cx in ("t0", "t1s2", "bare0", "bare6"):
+            d = dict(c)
+            d["ctx"] = cx
+            if not thorough:
+                d["lim"] = "ends"
+            extra.append(d)
+            if thorough and c["shape"] == "std" and cx in ("t0", "t1s2"):
+                d = dict(d)
+                d["cadence"] = 4          # turn 0 is a snapshot turn under every cadence, turn 1 is not
+                extra.append(d)
+    # --- state container x registry insertion order x naming of the agents' graphs; the stand-in observes what it reads
+    orders = range(len(REG_ORDERS)) if thorough else (0, 2, 4)     # quick: sorted (control), [G2,G1,G3], [G3,G1,G2]
+    for n in range(1, 4 if thorough else 3):
+        for idxs in itertools.product(range(len(SUBSETS)), repeat=n):
+            if n >= 2 and any(i > 4 for i in idxs) and not (thorough and n == 2):
+                continue
+            agents = {1: ["B"], 2: ["B", "A"], 3: ["C", "A", "B"]}[n]
+            graphs = {a: SUBSETS[i] for a, i in zip(agents, idxs)}
+            for workers in ((2, 6) if thorough else (2,)):
+                for cont, shp, cx in (("attr", "gba", "t6"), ("attr", "agents", "t6"), ("attr", "mixed", "bare0"), ("dict", "gba", "t6")):
+                    if not thorough and shp == "mixed":
+                        continue
+                    for o in orders:
+                        if cont == "dict" and o not in (0, 4):
+                            continue
+                        d = {"kind": "standin", "agents": agents, "graphs": graphs, "workers": workers, "shape": "walk",
+                             "cadence": 1, "container": cont, "state_shape": shp, "registry": o, "ctx": cx}
+                        if not thorough or n == 3:
+                            d["lim"] = "ends"
+                        extra.append(d)
     return out + extra
 
 
@@ -429,13 +565,25 @@ def run(run: Run) -> None:
     run.rule = ("(sel) every assignment of subsets of {G1,G2,G3} to 1..%d agents x worker limit 1..6; (a) every assignment for 1..3 agents x "
                 "worker limits x %d payload shapes (0-5 records, streams incl. unknown names, sizes 1B/200B/70KiB) x every staging limit class "
                 "(1, each record estimate and each prefix sum -1/+0/+1, 32MiB), each compared with the driver's disabled-path loop over the "
-                "picked tasks; (b) real pipeline on W3; non-trivial = >=2 agents" % (nsel, len(SHAPES)))
+                "picked tasks; plus, for 1..2 agents, batch contexts {turn 6, turn 0, turn 1 + slice 2 + now_ms 0 + seed 0, optional "
+                "fields absent} (stand-in echoes the context it is handed), and, for 1..%d agents, state container {dict, attribute "
+                "object} x graph naming x registry insertion order (%d of the 6 permutations of the graph ids; nested mappings, int "
+                "keys, falsy values) with a stand-in that records what it reads from the state (iteration order, lengths, values), "
+                "focuses on its first graph in registry order and proposes one delta per owned graph in that order%s; "
+                "(b) real pipeline on W3; non-trivial = >=2 agents" % (
+                    nsel, len(SHAPES), 3 if run.thorough else 2, 6 if run.thorough else 3,
+                    "" if run.thorough else " (context/container legs: staging limits 1, total-1, 32MiB only)"))
     run.pmap(_worker, cs, extra=(run.scratch,), chunks=128)
     for sig, what in real_pipeline_case(run.scratch):
         run.violation(sig, what, {"kind": "real"})
     run.add("transitions")
     run.assume("the driver computes the picked agents in a plain loop (no threads today): 'order in which compute phases finish' has one value")
-    run.assume("compute stand-in follows the dry-run contract, reads only its own agent's target, uses the batch turn id and slice index")
+    run.assume("compute stand-in follows the dry-run contract, reads only its own agent's target plus entries of the state that no "
+               "turn of the batch writes (registry, agent maps), uses the batch turn id and slice index")
+    run.assume("the batch context carries an integer turn id (0 included); a context without turn id is not judged (the two paths "
+               "document different defaults); registry values are mappings, lists, tuples and scalars (no namespaces: the "
+               "snapshot view documents their conversion); the view may wrap containers, so only iteration order, length, "
+               "lookup and scalar values are compared, not container types")
     run.assume("batches contain distinct agent ids")
 
 
